@@ -675,8 +675,19 @@ func (st *State) heap(fam string, dims []Sort, elem Sort) *HeapVer {
 	if strings.HasSuffix(fam, "#len") && elem == SInt {
 		st.asserts = append(st.asserts, lenNonNeg(h))
 	}
+	if strings.HasPrefix(fam, "MD|") && len(dims) == 2 && elem == SBool {
+		// the nil map has no keys
+		st.asserts = append(st.asserts, fmt.Sprintf("(= (select %s 0) ((as const (Array %s Bool)) false))", h.Name, dims[1]))
+	}
 	// references stored in a heap that predates this function's (or this epoch's) allocations denote
 	// objects that already existed then: nothing old points to an object allocated later
+	if strings.HasSuffix(fam, "#pay") && elem == SInt && st.epochAlloc != nil && (strings.HasPrefix(fam, "H|") || strings.HasPrefix(fam, "C|")) {
+		// interface payloads held by existing objects: a sentinel/boxed scalar (<= 0) or an object that already exists
+		al := st.epochAlloc.Name
+		if len(dims) == 1 {
+			st.asserts = append(st.asserts, fmt.Sprintf("(forall ((r Int)) (! (=> (select %s r) (or (<= (select %s r) 0) (select %s (select %s r)))) :pattern ((select %s r))))", al, h.Name, al, h.Name, h.Name))
+		}
+	}
 	if _, isRef := refFams.Load(fam); isRef && elem == SInt && st.epochAlloc != nil {
 		al := st.epochAlloc.Name
 		switch len(dims) {
@@ -902,6 +913,14 @@ func (st *State) freshVal(t types.Type, hint string) Val {
 	v, _ := unflatten(t, ls)
 	st.assumeWF(v, t)
 	return v
+}
+
+// ghostInt reads a path-local ghost counter (0 when never set).
+func (st *State) ghostInt(name string) Term {
+	if t, ok := st.ghost[name]; ok && t.S != "" {
+		return t
+	}
+	return IntLit(0)
 }
 
 // newRef allocates a fresh object reference.
